@@ -232,6 +232,15 @@ func (x *Exec) frameCheck(st *State, fc *FuncContract, env *specEnv) {
 		// closures run as goroutines / once-bodies: their `modifies` describes the spawn effect only
 		return
 	}
+	for _, fg := range x.frameGoals(st, fc, env.vars, nil) {
+		x.oblige(st, "frame", "", fg[0], nil, fg[1], x.fn.Pos(), "only the locations in `modifies` change: "+fg[0])
+	}
+}
+
+// frameGoals returns (label, goal) pairs stating that heap classes differing from the entry heap differ
+// only at the locations the contract allows. If only != nil, just those classes are considered.
+func (x *Exec) frameGoals(st *State, fc *FuncContract, vars map[string]Val, only map[string]bool) (out [][2]string) {
+	env := &specEnv{vars: vars}
 	type allow struct {
 		whole bool
 		refs  []string
@@ -265,6 +274,9 @@ func (x *Exec) frameCheck(st *State, fc *FuncContract, env *specEnv) {
 		if c == "\x00epoch" {
 			continue
 		}
+		if only != nil && !only[c] {
+			continue
+		}
 		init := x.initHeap[c]
 		if init == "" {
 			init = st.heapInit(x.initHeap, c)
@@ -275,8 +287,7 @@ func (x *Exec) frameCheck(st *State, fc *FuncContract, env *specEnv) {
 	}
 	if st.heap["\x00epoch"] != x.initHeap["\x00epoch"] {
 		// a callee havoc'd everything: the frame cannot be proved
-		x.oblige(st, "frame", "", "havoc-all", nil, "false", x.fn.Pos(), "a callee with `modifies *` was called but this function has a finite modifies clause")
-		return
+		return [][2]string{{"havoc-all", "false"}}
 	}
 	sort.Strings(classes)
 	for _, c := range classes {
@@ -324,8 +335,9 @@ func (x *Exec) frameCheck(st *State, fc *FuncContract, env *specEnv) {
 			}
 			goal = "(forall ((r Int)) " + sImp(sAnd(append([]string{"(<= r " + x.initAlloc + ")", "(>= r 0)"}, ex...)...), "(= (select "+cur+" r) (select "+init+" r))") + ")"
 		}
-		x.oblige(st, "frame", "", shortKey(c), nil, goal, x.fn.Pos(), "only the locations in `modifies` change: "+shortKey(c))
+		out = append(out, [2]string{shortKey(c), goal})
 	}
+	return out
 }
 
 // ---- solving ----
